@@ -1639,10 +1639,12 @@ The what argument tells us what sort of state is expected (allowed values are de
 
         return versionName is None or versionName == prod.version
 
-    def unsetupSetupProduct(self, product, noRecursion=False):
+    def unsetupSetupProduct(self, product, noRecursion=False, recursionDepth=0):
         """
         if the given product is setup, unset it up.
         @param product     a Product instance or a product name
+        @param recursionDepth  the depth at which the product is being replaced (so that
+                               max_depth limits the unsetup of its dependencies too)
         """
         if isinstance(product, Product):
             product = product.name
@@ -1650,7 +1652,7 @@ The what argument tells us what sort of state is expected (allowed values are de
         prod = self.findSetupProduct(product)
         if prod is not None:
             try:
-                self.setup(prod.name, fwd=False, noRecursion=noRecursion)
+                self.setup(prod.name, fwd=False, noRecursion=noRecursion, recursionDepth=recursionDepth)
             except EupsException as e:
                 print("Unable to unsetup %s %s: %s" % (prod.name, prod.version, e), file=utils.stderr)
 
@@ -2023,7 +2025,7 @@ The what argument tells us what sort of state is expected (allowed values are de
                         setup_msgs[msg] = 1
 
             q = utils.Quiet(self)
-            self.unsetupSetupProduct(product, noRecursion=noRecursion)
+            self.unsetupSetupProduct(product, noRecursion=noRecursion, recursionDepth=recursionDepth)
             del q
 
             if localProduct:
